@@ -203,6 +203,15 @@ def generate(rng, prop, tier):
         elif k == "hostile":
             ops.append({"op": "hostile", "acct": rng.randrange(n_acct),
                         "kind": rng.choice(HOSTILE_KINDS), "arg": rng.randint(0, 50)})
+    # colliding codes (C14, "earliest first"): two counters inside the window that produce the same code
+    if prop == "C14" and rng.random() < 0.25:
+        for _ in range(rng.randint(1, 2)):
+            ops.insert(rng.randint(n_acct, len(ops)), {"op": "collide", "acct": rng.randrange(n_acct), "span": rng.choice([1500, 2500, 4000]),
+                                                      "pick": rng.randint(0, 50), "replay": rng.random() < 0.6, "tmode": rng.choice(["now", "now", "int"])})
+    # exhaustive boundary sweep (C14): small period / window / skew / last-counter offsets x every time in a range
+    if prop == "C14" and rng.random() < (0.25 if tier == "thorough" else 0.03):
+        ops.append({"op": "sweep", "acct": rng.randrange(n_acct), "period": rng.choice([1, 2, 3, 5]), "t0": rng.choice([0, 1, 7, 1000, 2 ** 31 - 3]),
+                    "span": rng.choice([6, 10, 16]), "maxwin": rng.choice([2, 4, 7]), "digits": rng.choice([6, 6, 8])})
     # fault-free suffix for bounded liveness (C14): fresh codes from an in-sync device
     if prop == "C14" and rng.random() < 0.6:
         for _ in range(rng.randint(1, 4)):
@@ -843,6 +852,99 @@ class _World:
             ctx.key("hostile", kind)
 
 
+def _collide(w, op):
+    """search (with the reference) two counters c1 < c2 that give the same code, let the server's clock reach c2's period,
+    submit the code with a window that covers both: the earliest matching counter must be reported; then replay it"""
+    ctx = w.ctx
+    if op["acct"] >= len(w.accounts):
+        return
+    acct = w.accounts[op["acct"]]
+    t = acct["totp"]
+    per, digits, alg, key = t.period, t.digits, t.alg, t.key
+    if digits > 7:
+        return
+    off = w.cfg.get("server_off", 0)
+    cur = int(max(0, w.T + off)) // per
+    lc = acct["last_counter"]
+    lo = max(cur, (lc + 1) if lc is not None else 0)
+    seen = {}
+    pairs = []
+    for c in range(lo, lo + op["span"]):
+        tok = ref_hotp(key, c, alg, digits)
+        if tok in seen:
+            pairs.append((seen[tok], c, tok))
+        else:
+            seen[tok] = c
+    if not pairs:
+        ctx.probe("no_collision_found")
+        return
+    c1, c2, tok = pairs[op["pick"] % len(pairs)]
+    # move time forward so that the server reads a time inside c2's period
+    target = c2 * per + (op["pick"] % per) - off
+    if target < w.T:
+        return
+    w.advance(target - w.T)
+    acct["window"] = (c2 - c1 + 1) * per
+    acct["skew"] = 0
+    ctx.probe("collision_submitted")
+    w.submit(op["acct"], tok, op.get("tmode", "now"))
+    if op.get("replay"):
+        w.advance(per)
+        acct["window"] = (c2 - c1 + 2) * per
+        w.submit(op["acct"], tok, op.get("tmode", "now"))
+
+
+def _sweep(w, op):
+    """every (time, window, skew, last_counter offset, candidate counter) of a small box, against the reference matcher"""
+    from passlib.exc import InvalidTokenError, MalformedTokenError, UsedTokenError
+
+    ctx = w.ctx
+    if op["acct"] >= len(w.accounts):
+        return
+    acct = w.accounts[op["acct"]]
+    key = acct["key"]
+    per, digits = op["period"], op["digits"]
+    alg = acct["totp"].alg
+    with warnings.catch_warnings():
+        warnings.simplefilter("ignore")
+        t = w.TOTP(key=key, format="raw", period=per, digits=digits, alg=alg)
+    n = 0
+    for now in range(op["t0"], op["t0"] + op["span"] + 1):
+        cnow = now // per
+        for window in range(0, op["maxwin"] + 1):
+            for skew in (-2, -1, 0, 1, 2):
+                for lc in (None, cnow - 2, cnow - 1, cnow, cnow + 1):
+                    if lc is not None and lc < 0:
+                        continue
+                    for c in range(max(0, cnow - 3), cnow + 4):
+                        tok = ref_hotp(key, c, alg, digits)
+                        try:
+                            m = t.match(tok, time=now, window=window, skew=skew, last_counter=lc)
+                            got = ("accept", m.counter)
+                        except MalformedTokenError:
+                            got = ("malformed",)
+                        except UsedTokenError as e:
+                            got = ("used", e.expire_time)
+                        except InvalidTokenError:
+                            got = ("invalid",)
+                        except Exception as e:
+                            ctx.fail("C14", "match-internal-error", f"sweep: match({tok!r}, time={now}, window={window}, skew={skew}, "
+                                     f"last_counter={lc}) raised {type(e).__name__}: {e}", exc=type(e).__name__)
+                        want = ref_match(key, alg, digits, per, tok, now, window, skew, lc)
+                        if want[0] == "used":
+                            want = ("used", (want[1] + 1) * per)
+                        if got != want:
+                            ctx.fail("C14", "decision-differs-from-reference",
+                                     f"sweep: token of counter {c} at t={now} period={per} window={window} skew={skew} last_counter={lc}: "
+                                     f"passlib {got} reference {want}", got=got[0], want=want[0])
+                        n += 1
+    ctx.n_checks += n
+    ctx.extra["sweep_decisions"] = ctx.extra.get("sweep_decisions", 0) + n
+    ctx.probe("exhaustive_boundary_sweeps")
+    ctx.nontrivial = True
+    ctx.key("sweep", per, op["maxwin"], digits)
+
+
 def _cls(s):
     if s is None:
         return None
@@ -876,6 +978,10 @@ def execute(program, ctx):
                 w._provision(w.devices[op["dev"]], op["form"], op["deco"], op["factory"], check=True)
         elif k == "hostile":
             w.hostile(op)
+        elif k == "sweep":
+            _sweep(w, op)
+        elif k == "collide":
+            _collide(w, op)
     # deliver what is still in flight
     w.advance(max([q[0] for q in w.queue], default=w.T) - w.T)
 
